@@ -182,7 +182,10 @@ def check(ctx):
     ctx.ob("TOKFLOW.block-keys", rb, "keys = read-block-{o}-{tokenize(fs_token, delimiter, path, ukey, compression, offset)}", ok)
     rbk = [c for c in calls(rbf, "read_block")]
     ok = len(rbk) == 1 and [unparse(a) for a in rbk[0].args] == ["f", "off", "bs", "delimiter"] and [a.arg for a in rbf.args.args] == ["lazy_file", "off", "bs", "delimiter"]
-    ctx.ob("DELEG.blocks.read-block", rbf, "read_block_from_file(lazy_file, off, bs, delimiter) -> read_block(f, off, bs, delimiter)", ok)
+    if ok:
+        rd_ = reaching_of(rbf)
+        ok = all(rd_.is_param(rbk[0], nm) for nm in ("off", "bs", "delimiter"))
+    ctx.ob("DELEG.blocks.read-block", rbf, "read_block_from_file(lazy_file, off, bs, delimiter) -> read_block(f, off, bs, delimiter) with the offset, length and delimiter exactly as planned by read_bytes", ok, "" if ok else "the planned offset/length is altered on the way: blocks overlap or leave gaps (a record is returned twice, or lost)")
     whole = find("f.read()", rbf)
     ok = len(whole) == 1 and {("off == 0", True), ("bs is None", True)} <= {(unparse(e), pol) for e, pol in cfg_of(rbf).facts(enclosing_stmt(whole[0][0]))}
     ctx.ob("DELEG.blocks.whole-file", rbf, "f.read() only for (off == 0 and bs is None)", ok)
